@@ -1,0 +1,36 @@
+//go:build verif
+// +build verif
+
+// Pure re-exports for the verification harness (/verif, property C20).
+// No logic; compiled only with -tags verif.
+package p2p
+
+import "io"
+
+// VerifMsgPacket is the unexported wire packet type.
+type VerifMsgPacket = msgPacket
+
+const (
+	VerifMaxMsgPacketPayloadSize = maxMsgPacketPayloadSize
+	VerifMaxMsgPacketTotalSize   = maxMsgPacketTotalSize
+	VerifPacketTypeMsg           = packetTypeMsg
+	VerifDataMaxSize             = dataMaxSize
+	VerifSealedFrameSize         = sealedFrameSize
+)
+
+func VerifNewChannel(conn *MConnection, desc *ChannelDescriptor) *Channel {
+	return newChannel(conn, desc)
+}
+
+func (ch *Channel) VerifSendBytes(b []byte) bool    { return ch.sendBytes(b) }
+func (ch *Channel) VerifTrySendBytes(b []byte) bool { return ch.trySendBytes(b) }
+func (ch *Channel) VerifIsSendPending() bool        { return ch.isSendPending() }
+func (ch *Channel) VerifNextMsgPacket() VerifMsgPacket {
+	return ch.nextMsgPacket()
+}
+func (ch *Channel) VerifWriteMsgPacketTo(w io.Writer) (int, error) {
+	return ch.writeMsgPacketTo(w)
+}
+func (ch *Channel) VerifRecvMsgPacket(p VerifMsgPacket) ([]byte, error) {
+	return ch.recvMsgPacket(p)
+}
